@@ -597,6 +597,8 @@ class FileSystem(SimComponent):
         self.deleted_folders.pop(folder.uuid, None)
         folder.restore()
         self.folders[folder.uuid] = folder
+        # requests addressed to this name must reach the live folder again (a later folder of the same name may have taken the entry)
+        self._folder_request_manager.add_request(name=folder.name, request_type=RequestType(func=folder._request_manager))
         return True
 
     def restore_file(self, folder_name: str, file_name: str) -> bool:
